@@ -104,7 +104,7 @@ func stdinSizeRule(r *core.Result, prog *core.Program, pk *packages.Package) int
 
 func checkC20(r *core.Result) {
 	r.Explanation = "Static clauses of the diagnostic tools: protodump's dump loop has an arm for every declared WireType constant and an erroring default (T1); each arm reads its value with a csproto.Decoder method of that wire type (T2, table); every decoder error is returned (T3); recursion happens only under shouldExpand(p) on the same path p = append(parent, tag) that is passed down, with tag taken from DecodeTag (T5); the result of os.Stdin.Stat() is not used through Size() to decide whether input was piped (T6); only csproto.Decoder methods whose bounds obligations are discharged by C03 are called (list in the evidence). " +
-		"ParseAnnotatedHex: the error of hex.DecodeString is returned and the output is appended only from its result, in line order (H1, H2); a character-class analysis of the transformations applied to each line shows that every unicode white-space character is removed before hex decoding (H3)."
+		"ParseAnnotatedHex: the error of hex.DecodeString is returned and the output is appended only from its result, in line order (H1, H2); a character-class analysis of the transformations applied to each line shows that every unicode white-space character is removed before hex decoding (H3); the lines are the pieces of strings.Split(input, LF) (or an equivalent total splitter) and no API outside the total string packages is consulted (H4)."
 	r.RuleText = "one obligation per arm / decoder call / structural rule"
 	r.Assumptions = []string{"not decided: string-level behaviour of ParseAnnotatedHex (comment and whitespace placement), the exact text protodump prints, tag-path parsing"}
 	r.Trusted = []string{"go/types", "reader table (checks/c20.go)", "C03 for the Decoder methods"}
@@ -328,6 +328,7 @@ func main() {
 		return true
 	})
 	hexWhitespaceRule(r, prog, pt)
+	hexLineSourceRule(r, prog, pt)
 	r.Ob("H2", "ParseAnnotatedHex output is appended only from hex.DecodeString results", prog.Pos(hf.Pos()), okApp && nApp >= 1, "the returned bytes must be exactly the concatenation of the decoded lines")
 }
 
@@ -609,4 +610,65 @@ func hexWhitespaceRule(r *core.Result, prog *core.Program, pk *packages.Package)
 		detail = "white-space characters that reach hex.DecodeString (and make it reject valid annotated hex): " + strings.Join(firstN(missing, 12), " ")
 	}
 	r.Ob("H3", "ParseAnnotatedHex removes every white-space character before hex decoding", prog.Pos(decodeCall.Pos()), undecided == "" && len(missing) == 0, detail)
+}
+
+// H4: the lines ParseAnnotatedHex works on are the "\n"-separated pieces of the whole input, produced by a total
+// splitter, and the function consults no API whose behaviour on arbitrarily long lines is not modelled here.
+func hexLineSourceRule(r *core.Result, prog *core.Program, pk *packages.Package) {
+	info := pk.TypesInfo
+	f := core.FindFunc(pk, "ParseAnnotatedHex")
+	if f == nil || len(f.Decl.Type.Params.List) != 1 || len(f.Decl.Type.Params.List[0].Names) != 1 {
+		return
+	}
+	param := info.Defs[f.Decl.Type.Params.List[0].Names[0]]
+	totalPkgs := map[string]bool{"strings": true, "unicode": true, "unicode/utf8": true, "encoding/hex": true, "fmt": true, "errors": true, "bytes": true, "slices": true, "strconv": true}
+	var foreign []string
+	ast.Inspect(f.Decl.Body, func(n ast.Node) bool {
+		c, ok := n.(*ast.CallExpr)
+		if !ok {
+			return true
+		}
+		fn := staticCallee(info, c)
+		if fn == nil || fn.Pkg() == nil || fn.Pkg() == pk.Types {
+			return true
+		}
+		if !totalPkgs[fn.Pkg().Path()] {
+			what := fn.Pkg().Path() + "." + fn.Name()
+			if fn.Pkg().Path() == "bufio" {
+				what += " (a bufio.Scanner stops at a line longer than its buffer and only reports it through Err())"
+			}
+			foreign = append(foreign, what)
+		}
+		return true
+	})
+	r.Ob("H4", "ParseAnnotatedHex uses only total string functions", prog.Pos(f.Pos()), len(foreign) == 0,
+		"undecided: the function now depends on "+strings.Join(dedupe(foreign), ", ")+", whose behaviour for every placement of line breaks (arbitrarily long lines) is not modelled")
+	// the line loop
+	var lineSrc ast.Expr
+	for _, st := range f.Decl.Body.List {
+		if rs, ok := st.(*ast.RangeStmt); ok && lineSrc == nil {
+			lineSrc = rs.X
+		}
+	}
+	okSrc, detail := false, "no range loop over the lines of the input found"
+	if c, ok := lineSrc.(*ast.CallExpr); ok {
+		fn := staticCallee(info, c)
+		detail = "the lines come from " + types.ExprString(c)
+		if fn != nil && fn.Pkg() != nil && fn.Pkg().Path() == "strings" && len(c.Args) >= 1 {
+			if id, ok := c.Args[0].(*ast.Ident); ok && info.Uses[id] == param {
+				switch fn.Name() {
+				case "Split", "SplitAfter", "SplitSeq", "SplitAfterSeq":
+					if len(c.Args) == 2 {
+						if tv := info.Types[c.Args[1]]; tv.Value != nil && constantString(tv) == "\n" {
+							okSrc = true
+						}
+					}
+				case "Lines":
+					okSrc = true
+				}
+			}
+		}
+	}
+	r.Ob("H4", "ParseAnnotatedHex iterates over the \\n-separated pieces of the whole input", prog.Pos(f.Pos()), okSrc,
+		"undecided: "+detail+"; comments end at a line break, so the pieces must be exactly the input split at every line feed")
 }
